@@ -298,6 +298,8 @@ enum Action {
     RegInfix,
     RegPostfix,
     LockCtx(String),
+    /// evaluate a program that invokes this very handler again (bounded recursion, two levels)
+    ExecuteSelf,
 }
 
 #[derive(Clone)]
@@ -513,6 +515,7 @@ fn parse_handler(j: &J) -> Result<HSpec, E> {
                 "register_infix" => Action::RegInfix,
                 "register_postfix" => Action::RegPostfix,
                 "lock_ctx" => Action::LockCtx(req_str(j, "ctx")?.to_string()),
+                "execute_self" => Action::ExecuteSelf,
                 _ => return bad(format!("unknown reenter action \"{}\"", a)),
             })
         }
@@ -744,6 +747,8 @@ static CTXS: Mutex<Vec<(String, Context)>> = Mutex::new(Vec::new());
 
 thread_local! {
     static LAST_PANIC: RefCell<Option<(String, String)>> = const { RefCell::new(None) };
+    /// nesting of `execute_self` re-entries on this thread (nested handler invocations are not logged or counted)
+    static SELF_DEPTH: std::cell::Cell<u32> = const { std::cell::Cell::new(0) };
 }
 
 fn lock_any<T>(m: &Mutex<T>) -> MutexGuard<'_, T> {
@@ -881,10 +886,10 @@ fn reenter(action: &Action, id: &str) {
     let fresh = format!("reent_{}", id);
     match action {
         Action::Parse => {
-            let _ = parse_expression("1+2");
+            let _ = parse_expression("max(1,-2)+3++");
         }
         Action::Execute => {
-            let _ = execute("1+2", Context::new());
+            let _ = execute("max(1,-2)+3++", Context::new());
         }
         Action::RegFunction => register_function(&fresh, Arc::new(|_| Ok(Value::from(1)))),
         Action::RegPrefix => register_prefix_op(&fresh, Arc::new(|_| Ok(Value::from(1)))),
@@ -896,6 +901,21 @@ fn reenter(action: &Action, id: &str) {
             InfixOpAssociativity::LEFT,
             Arc::new(|_, _| Ok(Value::from(1))),
         ),
+        Action::ExecuteSelf => {
+            let prog = match id {
+                "gf" => "gf(1)",
+                "+++" => "+++ 1",
+                "---" => "1 ---",
+                "hi" => "1 hi 2",
+                _ => "max(1,-2)+3++",
+            };
+            let d = SELF_DEPTH.with(|c| c.get());
+            if d < 2 {
+                SELF_DEPTH.with(|c| c.set(d + 1));
+                let _ = execute(prog, Context::new());
+                SELF_DEPTH.with(|c| c.set(d));
+            }
+        }
         Action::LockCtx(name) => match ctx_lookup(name) {
             Some(c) => {
                 // a poisoned lock is entered anyway: the point of this action is the
@@ -914,9 +934,12 @@ fn reenter(action: &Action, id: &str) {
 fn make_handler(spec: &HSpec) -> HFn {
     let spec = spec.clone();
     Arc::new(move |args: Vec<Value>| -> EResult<Value> {
-        lock_any(&CALL_LOG).push(spec.id.clone());
-        let n = COUNTER.fetch_add(1, Ordering::SeqCst) + 1;
-        if spec.fail_at == Some(n) {
+        let nested = SELF_DEPTH.with(|c| c.get()) > 0;
+        if !nested {
+            lock_any(&CALL_LOG).push(spec.id.clone());
+        }
+        let n = if nested { 0 } else { COUNTER.fetch_add(1, Ordering::SeqCst) + 1 };
+        if !nested && spec.fail_at == Some(n) {
             if spec.fail_panic {
                 panic!("verif-handler-panic {}", spec.id);
             }
